@@ -133,7 +133,8 @@ def units(tier, seed):
     out.append(Unit('lemma/reader-loop', reader_loop_lemma(), level='property', clause='reader loop lemma'))
     UNCOVERED[:] = ['LDAP frames (asn1crypto "Insufficient data" translation): external, not interpreted'] + \
         [common.class_key(c) + ': see checks/classes.json' for c in e1.binary_classes() if e1.is_framing(c) and c not in classes]
-    return out
+    from checks import foundation
+    return list(out) + foundation.units(tier, seed)
 
 
 from checks import regions as _regions
